@@ -1,15 +1,23 @@
 #!/bin/bash
-# Development tool: apply a patch to /repo, run the quick checks of the given
-# properties, undo the patch.  usage: try_patch.sh <patch.diff> <Cxx> [<Cyy>...]
+# Development tool: apply a patch to a scratch worktree of /repo's HEAD (never to /repo itself), run the quick
+# checks of the given properties against it, undo the patch.
+# usage: [WT=/tmp/wt/slotN] try_patch.sh <patch.diff> <Cxx> [<Cyy>...]
 patch=$1; shift
-cd /repo || exit 2
-if [ -n "$(git status --porcelain)" ]; then echo "/repo has uncommitted changes"; exit 2; fi
-if ! git apply "$patch" 2>/tmp/apply.err; then
-  echo "PATCH DOES NOT APPLY: $(head -3 /tmp/apply.err)"; git reset -q --hard HEAD; exit 2
+WT=${WT:-/tmp/wt/main}
+if [ ! -d "$WT/.git" ] && [ ! -f "$WT/.git" ]; then
+  mkdir -p "$(dirname "$WT")"; git -C /repo worktree prune; git -C /repo worktree add --detach "$WT" HEAD -q || exit 2
 fi
-mkdir -p /tmp/try_verif; cp /verif/KNOWN_FINDINGS.txt /tmp/try_verif/
+cd "$WT" || exit 2
+if [ "$(git rev-parse HEAD)" != "$(git -C /repo rev-parse HEAD)" ]; then git checkout -q --detach "$(git -C /repo rev-parse HEAD)"; fi
+git checkout -q -- . ; git clean -fdq
+err=/tmp/apply.$$.err
+if ! git apply "$patch" 2>$err; then
+  echo "PATCH DOES NOT APPLY: $(head -3 $err)"; rm -f $err; git checkout -q -- . ; git clean -fdq; exit 2
+fi
+rm -f $err
+tv=/tmp/try_verif.$(basename "$WT"); mkdir -p $tv; cp /verif/KNOWN_FINDINGS.txt $tv/
 for p in "$@"; do
-  out=$(/verif/bin/otelcheck -property $p -tier ${TIER:-quick} -verif /tmp/try_verif 2>&1); rc=$?
+  out=$(${OTELCHECK:-/verif/bin/otelcheck} -property $p -tier ${TIER:-quick} -repo "$WT" -verif $tv 2>&1); rc=$?
   echo "== $p exit=$rc"; echo "$out" | grep -v "^VIOLATION\|^  key\|^KNOWN-FINDING" | cut -c1-${WIDTH:-400} | head -${LINES_MAX:-6}
 done
-git reset -q --hard HEAD; git clean -fdq
+git checkout -q -- . ; git clean -fdq
